@@ -532,6 +532,16 @@ impl<Sink: TokenSink> XmlTokenizer<Sink> {
     fn unconsume(&self, input: &BufferQueue, buf: StrTendril) {
         input.push_front(buf);
     }
+
+    /// Discard the character returned by peek() without input preprocessing, so that
+    /// it can be un-consumed verbatim later.
+    fn discard_raw_char(&self, input: &BufferQueue) {
+        if self.reconsume.get() {
+            self.reconsume.set(false);
+        } else {
+            input.next();
+        }
+    }
 }
 
 // Shorthand for common state machine behaviors.
